@@ -267,7 +267,7 @@ example : (run {} [.subReq, .closeEnter, .closeEnter, .closeDone, .closeDone]).m
 
 /-- **Partial**: as long as no two `Close` calls of the requester's client have overlapped (hypothesis
 `closeOverlap = false`: every `Close` began while none was in flight), no label — send, wait, unblock, close,
-… — panics in any reachable state. `close(recv)` never panics at all (second clause). -/
+… — panics in any reachable state. (`close(recv)` never panics at all: `close_recv_never_panics`.) -/
 theorem never_panics_partial {s : State} (hr : Reach s) (hser : s.closeOverlap = false) (l : Label) (s' : State) :
     step s l ≠ some (s', .panic) := by
   intro h
@@ -287,6 +287,7 @@ theorem never_panics_partial {s : State} (hr : Reach s) (hser : s.closeOverlap =
       have : s.closersB = 1 := by have := hc.bLe; omega
       simp [hc.bOpen this] at h
 
+/-- `close(client.recv)` is executed at most once, overlapping `Close` calls or not. -/
 theorem close_recv_never_panics {s : State} (hr : Reach s) (s' : State) :
     step s .closeFinish ≠ some (s', .panic) := by
   intro h
